@@ -105,7 +105,10 @@ def h(sym, arb, n, tkinds):
         sels.append(sym.bool("sel%d" % i))
         imps.append(sym.int("imp%d" % i, 0, IMAX))
         inputs[TAGS[i]] = ("in." + TAGS[i], sels[i], imps[i])
-    a = KINDS[arb](name="arb", store=store, output="out", group="grp", inputs=inputs)
+    try:
+        a = KINDS[arb](name="arb", store=store, output="out", group="grp", inputs=inputs)
+    except Exception as e:
+        sym.fail("C45/%s/constructor-raised-%s" % (arb, type(e).__name__), str(e)[:120])
     for i in range(n):
         raw, fix = mktruth(sym, i, tkinds[i])
         v = sym.int("val%d" % i, -2, 2)
@@ -211,7 +214,7 @@ def obligations(tier):
             covers += ["truth-tie", "truth-decides"]
         if arb == "priority":
             covers += ["all-importance-zero"]
-        out.append(Ob(name, h, dict(arb=arb, n=n, tkinds=tk), budget=400 if quick else 900, covers=covers,
+        out.append(Ob(name, h, dict(arb=arb, n=n, tkinds=tk), budget=300 if quick else 900, covers=covers, max_fail_keys=1,
                       bounds=dict(inputs=n, importance=[0, IMAX], value=[-2, 2], truth_kinds_per_input=tk,
                                   quarter_truth="k/4, k in [-2,6]", int_truth=[-1, 2], default_truth="k/4, k in [0,4]")))
 
